@@ -54,6 +54,10 @@ pub struct Scenario {
     pub stay: (u64, u64),
     pub shards: usize,
     pub threads: Vec<Vec<Op>>,
+    /// the per-type tables are not created up front: the first use of a type
+    /// is raced by the threads
+    #[serde(default)]
+    pub cold: bool,
 }
 
 pub fn generate(seed: u64, thorough: bool) -> Scenario {
@@ -77,7 +81,10 @@ pub fn generate(seed: u64, thorough: bool) -> Scenario {
                 .collect()
         })
         .collect();
-    Scenario { seed, stay: (r.range(0, 2), 4), shards: *r.pick(&[2, 2, 4, 16]), threads }
+    let stay = (r.range(0, 2), 4);
+    let shards = *r.pick(&[2, 2, 4, 16]);
+    let cold = r.chance(1, 2);
+    Scenario { seed, stay, shards, threads, cold }
 }
 
 enum Handle {
@@ -160,9 +167,13 @@ pub fn run(sc: &Scenario, replay: Option<Vec<String>>) -> Outcome {
     let interner = Interner::new(sc.shards, hasher());
     // create the per-type shards up front: a thread parked inside the
     // probe/insert window holds the outer shard map for reading
-    drop(interner.intern(SV(200)));
-    drop(interner.intern(SW(200)));
-    drop(interner.intern_unsized::<str, _>(String::from("warm")));
+    // (the waiting side spins through thread points, so leaving this out
+    // - `cold` - lets the threads race on the first use of a type)
+    if !sc.cold {
+        drop(interner.intern(SV(200)));
+        drop(interner.intern(SW(200)));
+        drop(interner.intern_unsized::<str, _>(String::from("warm")));
+    }
     let reg = Arc::new(Mutex::new(Registry::default()));
     let mut bodies: Vec<Box<dyn FnOnce() + Send>> = Vec::new();
     for ops in &sc.threads {
